@@ -50,6 +50,7 @@ static Outcome run_ctx(const Case &c) {
   size_t klen = (size_t)std::min<int64_t>(std::max<int64_t>(A(3), 0), 300);
   std::string data = prbytes((uint64_t)A(2), len), key = prbytes((uint64_t)A(2) ^ 0x99, klen);
   std::vector<size_t> cuts = cuts_of(op, 4, len);
+  if (len == 0 && op.a.size() <= 4) cuts.clear(), o.cls("Init; Final without any update call");
   size_t n = shim_ctx_size(alg);
   uint8_t *ctx = (uint8_t *)malloc(n);
   memset(ctx, 0xEE, n);
@@ -488,6 +489,17 @@ static Outcome run_keys(const Case &c) {
   std::string secret = prbytes((uint64_t)A(2), slen);
   for (auto &ch : secret) ch = "ABCDEFGHIJKLMNOPQRSTUVWXYZabcdefghijklmnopqrstuvwxyz0123456789+/"[(unsigned char)ch % 64];
   std::string id = "AKIA" + secret.substr(0, 4) + "ID";
+  // what the value looks like: 0 the AWS alphabet; 1/2 a blank or tab somewhere inside (a pasted secret); 3 blanks at the end; 4 a blank in front;
+  // 5 any printable characters ('=', '#', quotes, blanks ...).  The value is whatever stands between '=' and the end of the line.
+  int shape = (int)(((A(4) % 6) + 6) % 6);
+  if (shape == 1 || shape == 2) secret[1 + (size_t)(A(2) & 0xffff) % (slen - 1)] = shape == 1 ? ' ' : '\t';
+  if (shape == 3) secret += (A(2) & 1) ? "  " : " \t";
+  if (shape == 4) secret = " " + secret;
+  if (shape == 5) {
+    std::string r = prbytes((uint64_t)A(2) ^ 0x5a5a, secret.size());
+    for (size_t i = 0; i < secret.size(); i++) secret[i] = (char)(0x20 + (unsigned char)r[i] % 95);
+  }
+  if (shape) o.cls("secret-shape-" + std::to_string(shape));
   std::string f;
   bool id_first = A(3) & 1;
   if (id_first && mode != 4) f += "ACCESS_KEY_ID=" + id + "\n";
@@ -555,9 +567,34 @@ static Outcome run_keys(const Case &c) {
 static rc::Gen<Case> gen_keys(int) {
   return rc::gen::exec([]() {
     Case c;
-    c.push_back(Op("keys", {*range<int>(0, 8), *rc::gen::weightedOneOf<int64_t>({{3, range<int64_t>(8, 60)}, {1, range<int64_t>(60, 900)}}), *rc::gen::arbitrary<int>(), *range<int>(0, 1)}));
+    c.push_back(Op("keys", {*range<int>(0, 8), *rc::gen::weightedOneOf<int64_t>({{3, range<int64_t>(8, 60)}, {1, range<int64_t>(60, 900)}}), *rc::gen::arbitrary<int>(), *range<int>(0, 1),
+                           *rc::gen::weightedElement<int>({{6, 0}, {2, 1}, {1, 2}, {1, 3}, {1, 4}, {1, 5}})}));
     return c;
   });
+}
+
+// ------------------------------------------------------------------ sub "first": the very first library activity of a process (fork per case)
+// Whatever a library does once per process (self-tests, lazily chosen code paths, pointers set on first use) happens inside the one call that is
+// inspected here: a context finalised with or without any update, a key-file read, a Diffie-Hellman computation.
+static rc::Gen<Case> gen_first(int tier) {
+  return rc::gen::exec([tier]() {
+    int w = *rc::gen::weightedElement<int>({{3, 0}, {3, 1}, {1, 2}, {1, 3}});
+    if (w == 0) {  // Init; Final -- no update call at all
+      Case c;
+      c.push_back(Op("ctx", {*range<int>(0, 5), 0, *rc::gen::arbitrary<int>(), *range<int64_t>(0, 80)}));
+      return c;
+    }
+    if (w == 1) return *gen_ctx(tier);
+    if (w == 2) return *gen_keys(tier);
+    return *gen_dh(tier);
+  });
+}
+static Outcome run_first(const Case &c) {
+  if (c.empty()) return Outcome();
+  Outcome o = c[0].k == "ctx" ? run_ctx(c) : c[0].k == "keys" ? run_keys(c) : c[0].k == "dh" ? run_dh(c) : Outcome();
+  o.cls("first library activity of the process: " + c[0].k);
+  o.nontrivial = true;
+  return o;
 }
 
 int main(int argc, char **argv) {
@@ -591,6 +628,12 @@ int main(int argc, char **argv) {
                   "key files that fail after the secret line was read (duplicate secret, junk line, unknown key, duplicate id, missing id, missing final EOL) and valid "
                   "files; oracle: no block handed to free() during aws_readkeys still contains the secret. Non-trivial: a failing file",
                   gen_keys, run_keys});
+  Sub fst{"first",
+          "a fresh process per case whose FIRST library activity is the inspected one: Init+Final of one of the six contexts with no update call, an ordinary ctx case, a key-file "
+          "read or a Diffie-Hellman computation; same oracles as the subs ctx, awskeys and dh. Always non-trivial",
+          gen_first, run_first};
+  fst.fork = true;
+  subs.push_back(fst);
   // the same subs under a second name: selected by the driver for the binary linked against the -O2 library objects
   size_t n0 = subs.size();
   for (size_t i = 0; i < n0; i++) {
